@@ -1,4 +1,7 @@
 import ComposeVerif.Lemmas.C11Top
+import ComposeVerif.Lemmas.C11Shape
+import ComposeVerif.Lemmas.C11Walk
+import ComposeVerif.Neg.C11
 import ComposeVerif.Lemmas.AuditCmd
 import ComposeVerif.Lemmas.Path
 import ComposeVerif.Gen.Tables
@@ -181,48 +184,29 @@ example : applyHandler "portDefaults" (.map [("target", .int 80), ("protocol", .
 
 /-- every handler is idempotent: a document with its defaults written out is a fixed point -/
 theorem setDefaults_handlers_idem (h : String) (v v' : Val) (hok : applyHandler h v = .ok v') :
-    applyHandler h v' = .ok v' := by
-  unfold applyHandler at hok ⊢
-  by_cases h1 : h = "defaultBuildContext"
-  · simp only [h1, if_true] at hok ⊢
-    cases v <;> simp only [defaultBuildContext, Out.ok.injEq] at hok <;> subst hok <;>
-      simp [defaultBuildContext, setIfAbsent_idem]
-  · simp only [h1, if_false] at hok ⊢
-    by_cases h2 : h = "defaultSecretMount"
-    · simp only [h2, if_true] at hok ⊢
-      cases v <;> simp only [defaultSecretMount, Out.ok.injEq, reduceCtorEq] at hok
-      rename_i m
-      subst hok
-      simp only [defaultSecretMount]
-      have hs : lookup "source" (setIfAbsent "target" (.str ("/run/secrets/" ++ fmtS (lookup "source" m))) m) = lookup "source" m := by
-        rw [lookup_setIfAbsent]; simp [filled]
-      rw [hs, setIfAbsent_idem]
-    · simp only [h2, if_false] at hok ⊢
-      by_cases h3 : h = "portDefaults"
-      · simp only [h3, if_true] at hok ⊢
-        cases v <;> simp only [portDefaults, Out.ok.injEq] at hok <;> subst hok <;> simp only [portDefaults]
-        rename_i m
-        have e1 : setIfAbsent "protocol" (.str "tcp") (setIfAbsent "mode" (.str "ingress") (setIfAbsent "protocol" (.str "tcp") m))
-            = setIfAbsent "mode" (.str "ingress") (setIfAbsent "protocol" (.str "tcp") m) := by
-          have : ∃ x, lookup "protocol" (setIfAbsent "mode" (.str "ingress") (setIfAbsent "protocol" (.str "tcp") m)) = some x := by
-            rw [lookup_setIfAbsent]
-            simp only [filled, show ("protocol" = "mode") = False by simp, if_false]
-            rw [lookup_setIfAbsent]
-            simp only [filled, if_true]
-            cases lookup "protocol" m <;> simp
-          obtain ⟨x, hx⟩ := this
-          exact setIfAbsent_of_some hx
-        rw [e1, setIfAbsent_idem]
-      · simp only [h3, if_false] at hok ⊢
-        by_cases h4 : h = "deviceRequestDefaults"
-        · simp only [h4, if_true] at hok ⊢
-          cases v <;> simp only [deviceRequestDefaults, Out.ok.injEq, reduceCtorEq] at hok
-          rename_i m
-          subst hok
-          simp only [deviceRequestDefaults, deviceCount]
-          cases c1 : lookup "count" m <;> cases c2 : lookup "device_ids" m <;>
-            simp [lookup_insert_self, c1, c2]
-        · simp only [h4, if_false, reduceCtorEq] at hok
+    applyHandler h v' = .ok v' := applyHandler_idem h v v' hok
+
+/-- **`SetDefaultValues` is idempotent** on every document, at every path, for every rule table built from the
+known handlers: the document with its defaults written out is a fixed point (so it loads like the implicit one) -/
+theorem setDefaults_idempotent (tbl : List (List String × String)) (p : TPath) (v v' : Val)
+    (h : setDefaults tbl p v = .ok v') : setDefaults tbl p v' = .ok v' :=
+  CV.C11.setDefaults_idem tbl p v v' h
+
+theorem setDefaultValues_idempotent (d d' : KVs) (h : setDefaultValues CV.Gen.defaultValues d = .ok (.map d')) :
+    setDefaultValues CV.Gen.defaultValues d' = .ok (.map d') :=
+  CV.C11.setDefaults_idem _ _ _ _ h
+
+/-- **`SetDefaultValues` never overwrites or removes anything, anywhere in the document**: the result
+`Extends` the input (same scalars, sequences of the same length element by element, every mapping entry still
+there under its key with an extending value) -/
+theorem setDefaults_only_adds (tbl : List (List String × String)) (p : TPath) (v v' : Val)
+    (h : setDefaults tbl p v = .ok v') : Extends v v' :=
+  setDefaults_extends tbl p v v' h
+
+example : setDefaults CV.Gen.defaultValues ["services", "web", "build"] (.map [("dockerfile", .str "D")]) =
+    .ok (.map [("dockerfile", .str "D"), ("context", .str ".")]) := by rfl
+example : setDefaults CV.Gen.defaultValues ["services", "web", "ports"] (.seq [.map [("target", .int 80), ("mode", .str "host")]]) =
+    .ok (.seq [.map [("target", .int 80), ("mode", .str "host"), ("protocol", .str "tcp")]]) := by rfl
 
 /-! ## 4. `Normalize`: outcome, and each default as specified -/
 
@@ -451,6 +435,26 @@ theorem normalize_idem (clean : String → String) (hclean : ∀ s, clean (clean
     (env : Env) (henv : envLookup env "" = none) (d : KVs) :
     normalizePure clean env (normalizePure clean env d) = normalizePure clean env d :=
   normalizePure_idem clean hclean env henv d
+
+/-- **the normalised model is a fixed point of `Normalize`, outcome included**: if `Normalize` accepts `d` and
+returns `e` (= `d` with every default written out), it accepts `e` and returns `e` -/
+theorem normalize_fixed_point (clean : String → String) (hclean : ∀ s, clean (clean s) = clean s)
+    (env : Env) (henv : envLookup env "" = none) (d e : KVs) (h : normalize clean env d = .ok e) :
+    normalize clean env e = .ok e :=
+  normalize_ok_fixed clean hclean env henv d e h
+
+/-- **implicit ≡ explicit**: the model with all defaults spelled out (`e`) normalises to the same project as
+the model that leaves them implicit (`d`) -/
+theorem implicit_eq_explicit (clean : String → String) (hclean : ∀ s, clean (clean s) = clean s)
+    (env : Env) (henv : envLookup env "" = none) (d e : KVs) (h : normalize clean env d = .ok e) :
+    normalize clean env e = normalize clean env d := by
+  rw [h]; exact normalize_ok_fixed clean hclean env henv d e h
+
+example : normalize id [] [("name", .str "p"), ("services", .map [("a", .map [("links", .seq [.str "b"])]), ("b", .map [])])] =
+    .ok [("name", .str "p"),
+         ("services", .map [("a", .map [("links", .seq [.str "b"]), ("networks", defaultNet), ("depends_on", .map [("b", depEntry true)])]),
+                            ("b", .map [("networks", defaultNet)])]),
+         ("networks", .map [("default", .map [("name", .str "p_default")])])] := by rfl
 
 example : envLookup [("FOO", "bar")] "" = none := by decide
 example : ∀ s, (id : String → String) (id s) = id s := fun _ => rfl
